@@ -57,14 +57,15 @@ def save_meta(n, m):
         f.write("\n")
 
 
-def do_import(prop, src, only=None):
+def do_import(prop, src, only=None, rename=None):
+    """rename: e.g. {"a": "c", "b": "d"} for a second round of changes"""
     for x in sorted(os.listdir(src)):
         d = os.path.join(src, x)
         if not os.path.isfile(os.path.join(d, "patch.diff")):
             continue
         if only and x != only:
             continue
-        n = "%s-%s" % (prop, x)
+        n = "%s-%s" % (prop, (rename or {}).get(x, x))
         dst = os.path.join(SEEDED, n)
         os.makedirs(dst, exist_ok=True)
         for f in ("patch.diff", "demo.rs", "notes.md"):
@@ -72,7 +73,13 @@ def do_import(prop, src, only=None):
                 shutil.copy(os.path.join(d, f), os.path.join(dst, f))
         m = load_meta(n)
         m.setdefault("property", prop)
+        m.setdefault("breaks", prop)
         m.setdefault("origin", "sub-agent given only the text of %s and a scratch worktree" % prop)
+        ff = os.path.join(d, "demo_flags.txt")
+        if os.path.exists(ff):
+            flags = open(ff).read().split()
+            if flags:
+                m["demo_flags"] = flags
         save_meta(n, m)
         print("imported", n)
 
@@ -198,7 +205,12 @@ if __name__ == "__main__":
     if not a:
         print(__doc__)
     elif a[0] == "import":
-        do_import(a[1], a[2], a[3] if len(a) > 3 else None)
+        rn = None
+        rest = [x for x in a[1:] if not x.startswith("--")]
+        for f in a[1:]:
+            if f.startswith("--rename="):
+                rn = dict(kv.split(":") for kv in f.split("=", 1)[1].split(","))
+        do_import(rest[0], rest[1], rest[2] if len(rest) > 2 else None, rename=rn)
     elif a[0] == "verify":
         for n in (a[1:] or names()):
             verify(n)
